@@ -642,6 +642,13 @@ func (c *Client) headers(ctx context.Context, url string, start, limit uint64) (
 	return blocks, validate("headers", start, limit, blocks)
 }
 
+// Receipts, logs and traces are attached to blocks that may have
+// been downloaded (and cached) earlier. Reports false when h is
+// not the hash of the block that b was downloaded as.
+func sameBlock(b *eth.Block, h []byte) bool {
+	return len(b.Header.Hash) != 32 || bytes.Equal(b.Header.Hash, h)
+}
+
 type receiptResult struct {
 	BlockHash         eth.Bytes   `json:"blockHash"`
 	BlockNum          eth.Uint64  `json:"blockNumber"`
@@ -698,6 +705,9 @@ func (c *Client) receipts(ctx context.Context, url string, bm blockmap, start, l
 		b, ok := bm[blockNum]
 		if !ok {
 			return fmt.Errorf("block not found")
+		}
+		if !sameBlock(b, resps[i].Result[0].BlockHash) {
+			return fmt.Errorf("eth_getBlockReceipts block hash mismatch. num=%d", blockNum)
 		}
 		b.Header.Hash.Write(resps[i].Result[0].BlockHash)
 		for j := range resps[i].Result {
@@ -805,6 +815,10 @@ func (c *Client) logs(ctx context.Context, url string, filter *glf.Filter, bm bl
 			return fmt.Errorf("block not found")
 		}
 		b.Lock()
+		if !sameBlock(b, logs[0].BlockHash) {
+			b.Unlock()
+			return fmt.Errorf("eth_getLogs block hash mismatch. num=%d", k.a)
+		}
 		b.Header.Hash.Write(logs[0].BlockHash)
 		tx := b.Tx(k.b)
 		tx.PrecompHash.Write(logs[0].TxHash)
@@ -857,6 +871,9 @@ func (c *Client) traces(ctx context.Context, url string, bm blockmap, start, lim
 		block, ok := bm[res.Result[0].BlockNum]
 		if !ok {
 			return fmt.Errorf("missing block in block map")
+		}
+		if !sameBlock(block, res.Result[0].BlockHash) {
+			return fmt.Errorf("trace_block block hash mismatch. num=%d", block.Num())
 		}
 		block.Header.Hash.Write(res.Result[0].BlockHash)
 
